@@ -1,6 +1,7 @@
 """C01 — SU_vector is a faithful linear image of the Hermitian matrix it represents.
 Engine A (kernel algebra): tables extracted from the current sources, compared entry by entry
 with the definition in the property (Gell-Mann normalisation, layout, inverse pair)."""
+from guarded import same, explain
 from astdb import AnalysisBroken
 from interp import Interp, Obj, Cell, Ptr, Region, Thrown, Unsupported, ITE
 from kernels import KernelHooks, make_suv, GslMatrix, SUV
@@ -156,7 +157,7 @@ def check_inverse(db, rep):
             for k in range(d * d):
                 got = region.cell(k).value
                 want = Poly.var('c%d' % k)
-                if isinstance(got, Poly) and got.equals(want):
+                if same(got, want):
                     rep.ok('A.conv.inverse')
                 else:
                     bad += 1
@@ -298,7 +299,7 @@ def check_elementwise(db, rep, tier, ops=ELEM_F, rule='A.elem.footprint'):
                     T = Poly.var('T%d' % k)
                     want = {'AssignWrapper': val, 'IncrementWrapper': T + val, 'DecrementWrapper': T - val}[w]
                     got = tgt.cell(k).value
-                    if not (isinstance(got, Poly) and got.equals(want)):
+                    if not (same(got, want)):
                         bad = True
                         rep.fail(rule, '%s/%s/%s/%d/slot%d' % (op, w, 'aligned' if al else 'unaligned', d, k), unit.loc(cf),
                                  'target[%d] %s %s' % (k, {'AssignWrapper': '=', 'IncrementWrapper': '+=', 'DecrementWrapper': '-='}[w], val),
@@ -358,11 +359,24 @@ def check_loops(db, rep):
             for k in range(d * d):
                 want = f(Poly.var('a%d' % k), arg(k))
                 got = reg.cell(k).value
-                if not (isinstance(got, Poly) and got.equals(want)):
+                if not (same(got, want)):
                     bad = True
                     rep.fail('A.loop.op', '%s/%d/slot%d' % (name.split('::')[-1], d, k), unit.loc(fd),
                              'components[%d] %s operand' % (k, sym), str(got), fd['name'])
                     break
+            if not bad and sym == '/=':
+                # floating-point clause of "scalar division acts as division": every quotient is formed from the
+                # component itself; a reciprocal 1/x formed first overflows for |x| < 1/DBL_MAX although c/x is
+                # finite (and rounds twice otherwise)
+                for (dn, num, den, _as) in hooks.divisions:
+                    pn = it.to_poly(num) if not isinstance(num, Poly) else num
+                    if pn.is_const():
+                        bad = True
+                        rep.fail('A.loop.op', 'operator/=/%d/reciprocal' % d, unit.loc(dn),
+                                 'each component is divided by the scalar itself',
+                                 'a reciprocal %s/(%s) is formed first and the components are multiplied by it: it overflows to infinity for |x| < 1/DBL_MAX '
+                                 'where the quotient is finite, and rounds twice otherwise' % (pn, den), fd['name'])
+                        break
             if not bad:
                 rep.ok('A.loop.op')
     rep.floor('A.loop.op', n_op, 20)
@@ -433,7 +447,7 @@ def check_imagset(db, rep):
             for k in range(d * d):
                 got = out.cell(base + k).value
                 want = want_fn(k, Poly.var('a%d' % k))
-                if not (isinstance(got, Poly) and got.equals(want)):
+                if not (same(got, want)):
                     bad = True
                     rep.fail('A.loop.imagset', '%s/%d/slot%d' % (name.split('::')[-1], d, k), unit.loc(fd),
                              '%s (slot %d -> %s)' % (desc, k, want), str(got), fd['name'])
